@@ -179,6 +179,7 @@ def main_for(prop, run: core.Run, rule_extra: str, require=(), only=None):
     if prop == "C12" and (not only or "R" in only):
         rcases = [{"engine": "R", "kind": k, "method": mth, "load": ld} for k in ("setter_after_design", "report_read_after_next_design")
                   for mth, ld in ((("nearsquare", "office"),) if run.tier == "quick" else (("nearsquare", "office"), ("rectangle", "mirror"), ("bizoned", "office"), ("rowwise", "balanced")))]
+        rcases += [{"engine": "R", "kind": "plain_report", "method": mth, "load": "office", "limits": [32.22222222222222, 4.444444444444445]} for mth in (("nearsquare",) if run.tier == "quick" else ("nearsquare", "rowwise", "bizoned"))]
         run.drive(rcases, family="R", init_args=(prop, "B"), chunksize=1)
     if prop == "C02" and (not only or "S" in only):
         # sizing one real exchanger whose long-time table reaches beyond the allowed height window, loads far too large / far too small:
